@@ -4,6 +4,7 @@ package main
 
 import (
 	"fmt"
+	"go/token"
 	"os"
 	"path/filepath"
 	"sync"
@@ -45,7 +46,11 @@ func (b *loadedBatch) Pkg(i int) gengotypes.Package {
 }
 
 // loadBatch writes package i (file name → content) to <tmp>/c<i>/ and loads them all.
-func loadBatch(pkgs []map[string]string) *loadedBatch {
+func loadBatch(pkgs []map[string]string) *loadedBatch { return loadBatchFset(pkgs, false) }
+
+// loadBatchFset: with own set, the way a caller with a file set of its own loads — packages.Config.Fset supplied
+// through an option (the positions of the loaded syntax then live in that file set)
+func loadBatchFset(pkgs []map[string]string, own bool) *loadedBatch {
 	fixLoadEnv()
 	root, err := os.MkdirTemp("", "vhload")
 	if err != nil {
@@ -68,6 +73,11 @@ func loadBatch(pkgs []map[string]string) *loadedBatch {
 	devnull, _ := os.OpenFile(os.DevNull, os.O_WRONLY, 0)
 	os.Stdout = devnull
 	defer func() { os.Stdout = old; devnull.Close() }()
-	b.U, b.Err = gengotypes.Load(pats, func(c *packages.Config) { c.Dir = root })
+	b.U, b.Err = gengotypes.Load(pats, func(c *packages.Config) {
+		c.Dir = root
+		if own {
+			c.Fset = token.NewFileSet()
+		}
+	})
 	return b
 }
